@@ -32,7 +32,7 @@ KMAX = 1e8
 
 def floors(tier):
     return {"gcp_judged": 3000, "outward_on_bound": 800, "breakpoints_crossed_inputs": 800, "c_checked": 1500,
-            "intercepted_calls": 200, "tie_inputs": 600, "inputs_with_theta_exactly_one": 40, "inputs_with_empty_memory_and_theta_not_one": 100, "grazing_inputs": 10000, "grazing_inputs_after_crossed_breakpoints": 5000, "runs_with_objective_redefined": 40, "__nontrivial__": 200}
+            "intercepted_calls": 200, "tie_inputs": 600, "inputs_with_theta_exactly_one": 40, "inputs_with_empty_memory_and_theta_not_one": 100, "grazing_inputs": 10000, "grazing_inputs_after_crossed_breakpoints": 5000, "runs_with_objective_redefined": 40, "runs_with_objective_redefined_between_checkpoint_and_restart": 15, "__nontrivial__": 200}
 
 
 def exhaustive(tier):
@@ -295,12 +295,18 @@ def cases(tier, seed):
                "eps_SY": float(gen.pick(rng, [2.2e-16, 2.2e-16, 1e-3, 1e-2, 0.1]))}
     # runs whose objective is redefined on the fly (update_fun_def rewriting the stored gradients; demanding curvature test): the
     # matrices handed to the Cauchy search are then rebuilt from a filtered history, possibly with the newest pair rejected
-    for i in range(nruns // 2):
+    for i in range(nruns // 2 + (300 if tier == "quick" else 6000)):
         ps = gen.rand_spec(rng, ("qp", "qp_quartic"), nmax=8, nmin=2, boxes=("mixed", "boxed", "lower", "none"), starts=("interior", "face", "vertex"), condmax=1e3)
+        if i >= nruns // 2:
+            # restarts on a strongly perturbed objective with a demanding curvature test: the pair (last restored point -> x) is often rejected
+            yield {"kind": "run", "problem": ps, "maxcor": int(rng.integers(2, 7)), "maxiter": int(rng.integers(6, 12)),
+                   "switch": {"switch_at": int(rng.integers(2, 7)), "variant": "indefinite", "vseed": int(rng.integers(0, 2**31 - 1)),
+                              "strength": float(rng.uniform(1.0, 4.0)), "eps_SY": float(gen.pick(rng, [1e-2, 0.1, 0.3])), "on_restart": True}}
+            continue
         yield {"kind": "run", "problem": ps, "maxcor": int(rng.integers(1, 7)), "maxiter": int(rng.integers(6, 16)),
                "switch": {"switch_at": int(rng.integers(1, 7)), "variant": gen.pick(rng, ["reg", "indefinite", "indefinite"]),
                           "vseed": int(rng.integers(0, 2**31 - 1)), "strength": float(rng.uniform(0.3, 3.0)),
-                          "eps_SY": float(gen.pick(rng, [2.2e-16, 1e-2, 0.1, 0.3]))}}
+                          "eps_SY": float(gen.pick(rng, [2.2e-16, 1e-2, 0.1, 0.3])), "on_restart": bool(i % 2 == 1)}}
 
 
 def call_gcp(x, g, lb, ub, mats):
@@ -547,7 +553,18 @@ def run(spec):
             cfg = dict(jac="callable", maxcor=spec["maxcor"], maxiter=spec["maxiter"], ftol=0.0, gtol=1e-10, maxfun=3000, eps_SY=spec.get("eps_SY", 2.2e-16))
             with probes.Intercept(M, ["get_cauchy_point"]) as ic:
                 ic.on_event = on_event
-                if spec.get("switch"):
+                if spec.get("switch") and spec["switch"].get("on_restart"):
+                    # the objective changes between two runs: checkpoint of the first, update function rewriting the restored gradients
+                    # at its initial call of the second (matrices force-rebuilt on a fresh object, possibly with the newest pair rejected)
+                    from . import C13
+
+                    sw = dict(spec, **spec["switch"])
+                    sw["stop_at"] = sw["switch_at"]
+                    C13.run_switch_on_restart(sw, Outcome())
+                    tr = probes.Trace()
+                    out.count("runs_with_objective_redefined")
+                    out.count("runs_with_objective_redefined_between_checkpoint_and_restart")
+                elif spec.get("switch"):
                     from . import C13
 
                     tr = C13.switch_trace(dict(spec, **spec["switch"]))
